@@ -6,7 +6,7 @@ import ast
 import re
 
 from ..cfg import cfg_of
-from ..core import seq, AnalysisError, call_name, const_value, unparse, walk_no_nested
+from ..core import named_args, seq, AnalysisError, call_name, const_value, unparse, walk_no_nested
 from ..packs import ord_pack
 from ..report import Ctx
 from .c04 import restore_rule
@@ -28,7 +28,7 @@ def run(ctx: Ctx) -> None:
     f = NL.methods['_f']
     rets = [n for n in walk_no_nested(f.node) if isinstance(n, ast.Return)]
     ok = len(rets) == 1 and isinstance(rets[0].value, ast.UnaryOp) and isinstance(rets[0].value.op, ast.USub) and isinstance(rets[0].value.operand, ast.Call) and unparse(rets[0].value.operand.func) == 'self.like'
-    kw = {k.arg: unparse(k.value) for k in rets[0].value.operand.keywords} if ok else {}
+    kw = named_args(rets[0].value.operand) if ok else {}
     ok = ok and unparse(rets[0].value.operand.args[0]) == 'self.x' and kw.get('scaled') == 'False'
     ctx.add('C07.R1', 'NegativeLikelihood._f', ok, f, '_f = -like(x, scaled=False)' if ok else f'_f returns {unparse(rets[0].value) if rets else "?"}', unparse(rets[0].value) if rets else '')
     scaled_vals = {kw.get('scaled')}
@@ -36,7 +36,7 @@ def run(ctx: Ctx) -> None:
         g = NL.methods[name]
         calls = [c for c in walk_no_nested(g.node) if isinstance(c, ast.Call) and unparse(c.func) == 'self.like_derivatives']
         ctx.need(len(calls) == 1, f'{name} calls like_derivatives once')
-        kws = {k.arg: unparse(k.value) for k in calls[0].keywords}
+        kws = named_args(calls[0])
         scaled_vals.add(kws.get('scaled'))
         ok = unparse(calls[0].args[0]) == 'self.x' and kws.get('hessian') == want_h
         ctx.add('C07.R1', f'NegativeLikelihood.{name}:flags', ok, (g.file, calls[0].lineno), f'{name} asks hessian={kws.get("hessian")}' + ('' if ok else f' (expected {want_h})'), str(sorted(kws.items())))
@@ -97,7 +97,7 @@ def run(ctx: Ctx) -> None:
             if mname == 'estimate':
                 for d in defs:
                     if isinstance(d.value, ast.Call) and call_name(d.value) == 'BiogemeFunctionOutput':
-                        kk = {k.arg: unparse(k.value) for k in d.value.keywords}
+                        kk = named_args(d.value)
                         okv = okv and kk.get('function') == f'{evn}.function' and kk.get('gradient') == f'{evn}.gradient' and kk.get('bhhh') == f'{evn}.bhhh'
             ctx.add('C07.R2', f'BIOGEME.{mname}:results-evaluation', okv, (e.file, rr[0].lineno), f'RawResults receives the evaluation made at {xstar}' if okv else f'RawResults receives {third}, not the evaluation at {xstar}', third)
     ctx.floor('C07.R2', 5)
@@ -109,12 +109,12 @@ def run(ctx: Ctx) -> None:
     ctx.need(bo is not None, 'optimize looks the algorithm up in opt.algorithms')
     calls = [c for c in walk_no_nested(o.node) if isinstance(c, ast.Call) and unparse(c.func) == bo['_ALG']]
     ctx.need(len(calls) == 1, 'optimize calls the selected algorithm once')
-    kws = {k.arg: unparse(k.value) for k in calls[0].keywords}
+    kws = named_args(calls[0])
     nlv = [unparse(n.targets[0]) for n in walk_no_nested(o.node) if isinstance(n, ast.Assign) and isinstance(n.value, ast.Call) and call_name(n.value) == 'NegativeLikelihood']
     ok = kws.get('bounds') == 'self.id_manager.bounds' and kws.get('init_betas') == 'starting_values' and nlv == [kws.get('fct')]
     ctx.add('C07.R3', 'BIOGEME.optimize:bounds', ok, (o.file, calls[0].lineno), 'the algorithm receives id_manager.bounds and the starting values' if ok else f'algorithm called with {kws}', str(sorted(kws.items())))
     nl = [c for c in walk_no_nested(o.node) if isinstance(c, ast.Call) and call_name(c) == 'NegativeLikelihood']
-    kk = {k.arg: unparse(k.value) for k in nl[0].keywords} if nl else {}
+    kk = named_args(nl[0]) if nl else {}
     ok = kk.get('like') == 'self.calculate_likelihood' and kk.get('like_derivatives') == 'self.calculate_likelihood_and_derivatives' and kk.get('dimension') == 'self.id_manager.number_of_free_betas'
     ctx.add('C07.R3', 'BIOGEME.optimize:objective', ok, o, 'the objective is built from calculate_likelihood / calculate_likelihood_and_derivatives' if ok else f'objective: {kk}', str(sorted(kk.items())))
     sub = Ctx(prog, ctx.prop, ctx.tier)
